@@ -168,6 +168,11 @@ fn c09_vacuity_twin() {
 }
 
 // ======================================================================== C04 stream bounds
+/// The digest value is irrelevant to C04; the MD5 compression function is replaced by a no-op.
+fn md5_noop_stub(state: &mut [u32; 4], _input: &[u8; 64]) {
+    state[0] = state[0].wrapping_add(1);
+}
+
 /// Runs the real single-threaded `encode_with_fixed_block_size` on N_SAMPLES mono 16-bit
 /// samples with block size BS and checks the STREAMINFO bounds of the returned stream.
 fn stream_bounds_case<const N_SAMPLES: usize, const BS: usize>() -> bool {
@@ -182,13 +187,14 @@ fn stream_bounds_case<const N_SAMPLES: usize, const BS: usize>() -> bool {
             return false;
         }
     };
-    // sample values are symbolic but small; blocks shorter than 64 samples take the
-    // constant/verbatim paths only (no float analysis involved)
+    // three sample values are symbolic (first block, last full block, final block), the rest
+    // zero: each block is then a constant or a verbatim subframe depending on the values;
+    // blocks shorter than 64 samples never reach the predictors (no float analysis involved)
     let mut samples = [0i32; N_SAMPLES];
-    let mut i = 0;
-    while i < N_SAMPLES {
-        samples[i] = kani::any::<i8>() as i32;
-        i += 1;
+    if N_SAMPLES > 0 {
+        samples[0] = kani::any::<i8>() as i32;
+        samples[N_SAMPLES / 2] = kani::any::<i8>() as i32;
+        samples[N_SAMPLES - 1] = kani::any::<i8>() as i32;
     }
     let src = MemSource::from_samples(&samples, 1, 16, 44100);
     let stream = match encode_with_fixed_block_size(&cfg, src, BS) {
@@ -236,12 +242,13 @@ fn stream_bounds_case<const N_SAMPLES: usize, const BS: usize>() -> bool {
 //@ prop: C04
 //@ features: nopar
 //@ drives: coding::encode_with_fixed_block_size (single-thread loop), MemSource::read_samples_from, Context::fill_interleaved, encode_fixed_size_frame, Stream::add_frame, StreamInfo::update_frame_info, StreamInfo::set_block_sizes, Frame::count_bits
-//@ bound: mono 16-bit input of 33 samples with block size 32 (one full block + a 1-sample final block) and 40 samples with block size 33; sample values free in -128..=127 (constant and verbatim subframes; blocks < 64 samples never reach the predictors)
+//@ bound: mono 16-bit input of 33 samples with block size 32 (one full block + a 1-sample final block) and 40 samples with block size 33; three free sample values in -128..=127 placed in the first, middle and final block, zeros elsewhere (constant and verbatim subframes; blocks < 64 samples never reach the predictors)
 //@ asserts: max block size == requested; min block size >= 16 and <= every non-final frame; min/max frame size == smallest/largest byte length over the frames (count_bits/8, which C08 ties to the bytes written); total samples == input length; per-frame block sizes
-//@ stubs: alloc::fmt::format -> empty string
+//@ stubs: alloc::fmt::format -> empty string; md5::compress::soft::compress_block -> no-op (the digest value is not part of C04)
 #[kani::proof]
 #[kani::unwind(70)]
 #[kani::stub(alloc::fmt::format, fmt_stub)]
+#[kani::stub(md5::compress::soft::compress_block, md5_noop_stub)]
 fn c04_stream_bounds_short_final_block() {
     let c = if kani::any() { stream_bounds_case::<33, 32>() } else { stream_bounds_case::<40, 33>() };
     kani::cover!(c);
@@ -253,10 +260,11 @@ fn c04_stream_bounds_short_final_block() {
 //@ drives: coding::encode_with_fixed_block_size
 //@ bound: input lengths 0, 1, 32, 64, 65 with block size 32 (empty input, shorter than one block, exact multiples, multiple + 1)
 //@ asserts: as c04_stream_bounds_short_final_block
-//@ stubs: alloc::fmt::format -> empty string
+//@ stubs: alloc::fmt::format -> empty string; md5::compress::soft::compress_block -> no-op (the digest value is not part of C04)
 #[kani::proof]
 #[kani::unwind(70)]
 #[kani::stub(alloc::fmt::format, fmt_stub)]
+#[kani::stub(md5::compress::soft::compress_block, md5_noop_stub)]
 fn c04_stream_bounds_lengths() {
     let sel: u8 = kani::any();
     let c = match sel {
@@ -401,4 +409,54 @@ fn residual_assembly_case<const B: usize, const ORDER: usize, const NP: usize>()
 fn c01_residual_assembly() {
     let c = if kani::any() { residual_assembly_case::<8, 0, 1>() } else { residual_assembly_case::<8, 1, 2>() };
     kani::cover!(c);
+}
+
+// ======================================================================== C17: frame-level entry point
+//@ prop: C17
+//@ drives: coding::encode_fixed_size_frame (frame-number check, FrameBuf::verify_samples), encode_frame, FrameHeader::set_frame_offset
+//@ bound: frame_number free over all of usize (so 2^31, 2^32+k, usize::MAX are in the query); a mono 16-bit frame buffer of 32 samples holding one arbitrary sample value (in or out of the 16-bit range) and zeros otherwise
+//@ asserts: never panics; Ok implies frame_number < 2^31, every sample within the declared width, and the emitted header carries exactly that frame number (no truncation); Err otherwise
+//@ stubs: alloc::fmt::format -> empty string
+#[kani::proof]
+#[kani::unwind(70)]
+#[kani::stub(alloc::fmt::format, fmt_stub)]
+fn c17_encode_fixed_size_frame_arguments() {
+    let mut cfg = config::Encoder::default();
+    cfg.multithread = false;
+    let cfg = match crate::error::Verify::into_verified(cfg) {
+        Ok(c) => c,
+        Err(e) => {
+            std::mem::forget(e);
+            assert!(false);
+            return;
+        }
+    };
+    let frame_number: usize = kani::any();
+    let x: i32 = kani::any();
+    let mut fb = crate::source::verif_kani::new_framebuf(1, 32);
+    let mut data = [0i32; 32];
+    data[7] = x;
+    let r = fb.fill_interleaved(&data);
+    assert!(r.is_ok());
+    std::mem::forget(r);
+    let info = gen::stream_info_of(44100, 1, 16);
+    let r = encode_fixed_size_frame(&cfg, &fb, frame_number, &info);
+    let in_range = x >= -32768 && x <= 32767;
+    match r {
+        Ok(frame) => {
+            assert!(frame_number < (1usize << 31));
+            assert!(in_range);
+            assert!(!frame.header().is_variable_blocking());
+            assert!(frame.header().frame_number() as usize == frame_number);
+            assert!(frame.block_size() == 32);
+            kani::cover!(frame_number == 0x7FFF_FFFF);
+            std::mem::forget(frame);
+        }
+        Err(e) => {
+            assert!(frame_number >= (1usize << 31) || !in_range);
+            std::mem::forget(e);
+        }
+    }
+    std::mem::forget(fb);
+    std::mem::forget(cfg);
 }
